@@ -1,12 +1,21 @@
 #!/bin/bash
-# usage: mutant_try.sh <patch file> <property> [tier]   — apply a patch to a scratch worktree of /repo,
-# run the property's check against it, clean up.  Exit status = status of the check.
+# usage: mutant_try.sh <patch file> <property> [tier]
+# Applies a patch to a scratch worktree of /repo (outside /repo and /verif), runs the property's check
+# against it (VERIF_REPO), removes the worktree.  Exit status = status of the check.
+# MUTANT_SLOT=<n> selects the scratch slot (parallel use needs different slots); the slot's cargo target
+# directory is kept between calls so that only the engine crate is recompiled; MUTANT_CLEAN=1 removes it.
 set -u
 patch="$(realpath "$1")"; prop="$2"; tier="${3:-quick}"
-wt="$(mktemp -d /tmp/verif-wt-XXXXXX)"
-rmdir "$wt"
+slot="${MUTANT_SLOT:-0}"
+wt="/tmp/verif-wt-slot$slot"
+tdir="/verif/sim/target-$(echo "$wt" | sed 's/[^A-Za-z0-9]/_/g')"
+git -C /repo worktree remove --force "$wt" 2>/dev/null; rm -rf "$wt"
+git -C /repo worktree prune
 git -C /repo worktree add --detach -q "$wt" HEAD || exit 2
-cleanup() { git -C /repo worktree remove --force "$wt" 2>/dev/null; rm -rf "$wt" "/verif/sim/target-$(echo "$(realpath -m "$wt")" | sed 's/[^A-Za-z0-9]/_/g')"; }
+cleanup() {
+  git -C /repo worktree remove --force "$wt" 2>/dev/null; rm -rf "$wt"
+  if [ "${MUTANT_CLEAN:-0}" = "1" ]; then rm -rf "$tdir"; fi
+}
 trap cleanup EXIT
 if ! git -C "$wt" apply "$patch"; then echo "patch does not apply"; exit 2; fi
 cd /verif && VERIF_REPO="$wt" VERIF_EVIDENCE_DIR="$wt/.evidence" VERIF_REPLAY_DIR="${VERIF_REPLAY_DIR:-/verif/replays/mutants}" ./check "$prop" "$tier"
